@@ -12,6 +12,7 @@ def generate(ctx):
     r = ctx.rng
     ds = common.docs(ctx, ctx.scale(250, 10000), finite=False)
     ctx.trials = []
+    ctx.batches = []
     for v in ds:
         e = gen.hexarg(gen.enc(v))
         w = r.choice(ds)
@@ -35,10 +36,43 @@ def generate(ctx):
             big = len(pre) > 1000
             pid = ctx.add('%s@%s %s' % (name, pre.hex(), rest), diff=not big).id
             ctx.trials.append((op, pre, base, pid))
+        # several selections appended to one data buffer and one offsets vector, a predicate path (which writes a
+        # value but reports no offset) among them
+        if r.random() < 0.6:
+            paths = [common.gen_path(ctx, v) for _ in range(r.choice([2, 3, 4]))]
+            pred = None
+            for _ in range(20):
+                q = common.gen_path(ctx, v)
+                if q and q[0][0] == 'P':
+                    pred = q
+                    break
+            if pred is not None:
+                paths.insert(r.randrange(1, len(paths) + 1), pred)
+            fn = r.choice(['get_by_path', 'get_by_path', 'get_by_path_first', 'get_by_path_array'])
+            texts = [common.path_text(q) for q in paths]
+            singles = [ctx.add('%s %s %s' % (fn, e, t)).id for t in texts]
+            pre = r.choice([b'', b'\x00', gen.enc(w)])
+            bid = ctx.add('path_batch%s %s %s %s' % ('@' + pre.hex() if pre else '', e, fn, ' '.join(texts))).id
+            ctx.batches.append((fn, texts, pre, singles, bid))
 
 
 def judge(ctx):
     impl = ctx.impl
+    for fn, texts, pre, singles, bid in ctx.batches:
+        outs = [impl.get(i, 'missing') for i in singles]
+        b = impl.get(bid, 'missing')
+        if any(not o.startswith('ok ') for o in outs) or 'panic' in b:
+            continue
+        data, offs = pre, []
+        for o in outs:
+            f = o.split(' ')
+            d = gen.unhexarg(f[1])
+            offs += [int(x) + len(data) for x in f[2].split(',')] if len(f) > 2 and f[2] else []
+            data += d
+        want = 'ok %s %s' % (gen.hexarg(data), ','.join(str(x) for x in offs))
+        if b.rstrip() != want.rstrip():
+            ctx.violate('selections appended to one buffer: data or offsets differ from the single calls laid end to end',
+                        case=[fn] + texts, prefix=pre.hex()[:64], expected=want[:300], observed=b[:300])
     for op, pre, base, pid in ctx.trials:
         b, p = impl.get(base, 'missing'), impl.get(pid, 'missing')
         if b == 'panic' or p == 'panic':
